@@ -34,6 +34,10 @@ CHECKS = {
    "symbolic (Dolev-Yao style) TLA+ model of documents, adversary operations and the decryptor (EncTamper) checked exhaustively by TLC: released bytes are always a prefix, clean EOF only on the full message, source errors surface; TLC exports every terminal state as a mutation script with predicted outcome, the scripts and byte-level sweeps are replayed on real documents and the outcomes judged by TLC against the contract monitor",
    "all documents of <=3 segments x <=2 (3) adversary operations x source failures explored on the model (3.9M states thorough); ~22k (quick) to ~100k (thorough) mutated real documents at the real segment size, both ciphers: every header bit, segment edges and tags, every truncation offset class, delete/duplicate/swap/append/splice, wrong key, source failures at 5 offset classes x error kinds x with/without data",
    "trusted: TLC; AES-GCM/ChaCha20-Poly1305/HMAC strength (symbolic model); known finding: header-only truncation (inherent in the format) listed in known-findings.txt", "DESIGN.md#c02"),
+ "C08": ("model_checking",
+   "TLA+ models of the shared state (BufPool with havoc-on-Put, logger Registry get-or-create, BytePool reuse) checked exhaustively by TLC over all interleavings; on the real code the havoc is made real by a poison-on-Put hook, pipelines run sequentially, under gated seeded schedules on one P and free-running under the race detector, and every outcome is judged by TLC against the SharedContract monitor",
+   "TLC: 3 pipelines x 2-3 buffers all interleavings (44k-650k states), registry and byte pool models (3.3M states thorough); real code: ~600 sequential poisoned scenarios, 400 (10k) gated multi-pipeline schedules, 250 (6k) free-running waves, 5k (60k) concurrent NewLogger rounds, byte-pool sequences, all compared with each operation's own sequential result; race reports become rejected traces",
+   "trusted: TLC, Go race detector, the poison hook (build tag verif); sync.Pool per-P behaviour is a runtime fact, which is why the poison hook (deterministic) carries the verdict for pooled-buffer aliasing", "DESIGN.md#c08"),
 }
 
 def hook_commits():
